@@ -95,7 +95,9 @@ pub fn materialise_rec(rec: &Rec, k: usize, earlier: &[u8]) -> Vec<u8> {
             SeqOp::Rand(v) => out.extend(v.iter().map(|b| b2c(*b))),
             SeqOp::Rand2(v) => out.extend(v.iter().map(|b| if b & 1 == 0 { b'A' } else { b'C' })),
             SeqOp::Ns(n, lower) => {
-                out.extend(std::iter::repeat(if *lower { b'n' } else { b'N' }).take(*n as usize))
+                // 1..99: that many N; 100..255: a long gap as scaffolders write them (k, k+1, 2k+3 or a round number)
+                let len = if *n < 100 { *n as usize } else { [k, k + 1, 2 * k + 3, 100, 255, 256, 1000, 1024][*n as usize % 8] };
+                out.extend(std::iter::repeat(if *lower { b'n' } else { b'N' }).take(len))
             }
             SeqOp::Copy {
                 src,
@@ -199,7 +201,7 @@ pub fn seqop_strategy(k: usize) -> BoxedStrategy<SeqOp> {
     prop_oneof![
         6 => vec(0u8..4, 1..maxlen).prop_map(SeqOp::Rand),
         2 => vec(0u8..2, 1..maxlen).prop_map(SeqOp::Rand2),
-        2 => (1u8..4, any::<bool>()).prop_map(|(n, l)| SeqOp::Ns(n, l)),
+        2 => (prop_oneof![16 => 1u8..4, 3 => 4u8..70, 1 => 100u8..=255], any::<bool>()).prop_map(|(n, l)| SeqOp::Ns(n, l)),
         4 => (any::<u16>(), 0u8..64, any::<bool>(), 0u8..4)
             .prop_map(|(src, extra, rc, mid)| SeqOp::Copy { src, extra, rc, mid }),
         1 => (vec(0u8..4, 1..6), 0u8..4).prop_map(|(arm, mid)| SeqOp::Pal { arm, mid }),
